@@ -85,6 +85,56 @@ def highdim_pass(ctx):
                               key='normsq:composition' + (':dropped-blade' if missing else ''))
 
 
+def registered_order_pass(ctx):
+    """sw / proj / normsq inside registered (compiled) functions, with and without a wrapper and nested in another registered
+    function, called in an interleaved history with operands that store the same blades in different orders: every call equals
+    the composition of elementary operators on the same operands"""
+    from fractions import Fraction
+    from kingdon import MultiVector
+    rng = ctx.rng
+    ident = lambda f: f
+    for sig in ([1, 1, 1], [0, 1, 1]):
+        for wname, wrapper in (('no-wrapper', None), ('wrapper', ident)):
+            alg = make_algebra(sig, wrapper=wrapper) if wrapper else make_algebra(sig)
+            @alg.register
+            def r_sw(a, b): return a >> b
+            @alg.register
+            def r_proj(a, b): return a @ b
+            @alg.register
+            def r_nsq(a, b): return a.normsq() + b.normsq()
+            @alg.register
+            def r_nested(a, b): return r_sw(a, b) + r_proj(a, b)
+            funcs = {'sw': (r_sw, lambda a, b: a * b * ~a), 'proj': (r_proj, lambda a, b: (a | b) * ~b),
+                     'normsq': (r_nsq, lambda a, b: a * ~a + b * ~b), 'nested': (r_nested, lambda a, b: a * b * ~a + (a | b) * ~b)}
+            base = [(0, 3, 5), (1, 2, 4), (0, 1, 6)]
+            orders = []
+            for ks_ in base:
+                perm = list(ks_); rng.shuffle(perm)
+                if tuple(perm) == ks_:
+                    perm = perm[1:] + perm[:1]
+                orders.append((ks_, tuple(perm)))
+            for name, (rf, comp) in funcs.items():
+                hist = []
+                for ks_, perm in orders:
+                    hist += [(ks_, base[1]), (perm, base[1]), (ks_, base[1]), (base[1], perm), (base[1], ks_)]
+                for kx, ky in hist:
+                    a = MultiVector.fromkeysvalues(alg, tuple(kx), [Fraction(rng.randint(1, 9)) for _ in kx])
+                    b = MultiVector.fromkeysvalues(alg, tuple(ky), [Fraction(rng.randint(1, 9)) for _ in ky])
+                    case = {'sig': sig, 'route': 'registered:' + wname, 'f': name, 'kx': list(kx), 'ky': list(ky)}
+                    ctx.case(case, tag='registered-order')
+                    try:
+                        exp = mv_to_dict(comp(a, b))
+                    except ZeroDivisionError:
+                        continue
+                    try:
+                        got = mv_to_dict(rf(a, b))
+                    except Exception as ex:
+                        got = 'raises ' + repr(ex)[:150]
+                    if got != exp:
+                        ctx.violation('registered-composition', case, str(exp)[:250], str(got)[:250], key=f'{name}:registered-order:{wname}')
+                        break
+
+
 def run(ctx):
     ctx.rule = ('per configuration (signatures d<=2 all, d=3,4 sampled, 2DPGA/3DPGA, seeded custom bases; d=5 thorough) ordered pairs of '
                 'key tuples: all subset pairs for d<=2 (sampled in quick), grade-block and random sparse patterns above; '
@@ -107,6 +157,10 @@ def run(ctx):
     for _ in range(2 if ctx.quick else 12):
         d = rng.choice([2, 3])
         cfgs.append(('custom', [rng.choice((1, -1, 0)) for _ in range(d)], None, random_custom_basis(rng, d)))
+    # start indices: blade names with other digits, among them the hex letters (ea, eb, eab: the generated symbols then
+    # contain letters after the operand letter)
+    cfgs += [('start', [1, 1], 10, None), ('start', [1, -1, 1], 9, None), ('start', [0, 1, 1], 13, None), ('start', [1, 1, 1], 0, None),
+             ('start', [rng.choice((1, -1, 0)) for _ in range(2)], rng.choice((2, 5, 11, 14)), None)]
     if not ctx.quick:
         for _ in range(3):
             cfgs.append(('sig', [rng.choice((1, -1, 0)) for _ in range(5)], None, None))
@@ -162,6 +216,7 @@ def run(ctx):
                 R.plan.append((case, canon_dict(zd)))
     R.flush()
     highdim_pass(ctx)
+    registered_order_pass(ctx)
     # the same multivector object after in-place updates of its coefficients (stale state)
     import numpy as np
     from fractions import Fraction
